@@ -207,6 +207,24 @@ def make_machine(sh, found, steps_budget):
         def eval_raises(self, msg):
             self.both('eval', 'raise ValueError(%r)' % msg)
 
+        @rule(code=st.sampled_from([3, 0, 'bye']))
+        def eval_exits(self, code):
+            """code run for a request calls sys.exit(): a request that raises like any other (the expected outcome is written down
+            here, the mirror cannot run it without ending the harness)"""
+            self.ops.append(('eval-exit', repr(code)))
+            want = str(code)
+            try:
+                got = self.env._call('eval', 'import sys\nsys.exit(%r)' % (code,))
+                self.fail('outcome-mismatch:eval-exit', 'client got a result %r for a request that raised SystemExit' % (got,))
+            except AssertionError:
+                raise
+            except Exception as e:
+                if str(e) != want:
+                    self.fail('error-message-differs:eval-exit', 'client raised %r, server-side message %r' % (str(e), want))
+            self.faults += 1
+            if self.env.proc.poll() is not None:
+                self.fail('server-died:eval-exit', 'child exit status %r after sys.exit() in a request' % (self.env.proc.poll(),))
+
         @rule()
         def eval_unserialisable(self):
             self.both('eval', 'return object()')
@@ -374,6 +392,9 @@ def replay(case):
                     m.eval_raises('boom')
                     m.eval_unserialisable()
                     m.payload_eval(65536)
+                elif name == 'eval-exit':
+                    m.eval_exits(3)
+                    m.eval_token()
                 elif name == 'configure':
                     m.configure(False, ['m2'])
                     for i, (src, pos) in enumerate(SNIPPETS):
